@@ -12,13 +12,6 @@ default tasks / all tasks).  `InCleanSet tbl r base` is the declarative clean se
 namespace DoitModel.C14
 open DoitModel.Clean
 
-/-- the fuel of `build_nodes_with_deps` (number of tasks + 1) is an artefact of the model; its sufficiency is
-    evaluated by the driver on every case (`oof`); `flat`'s fuel is proved sufficient below (`flat_terminates`) -/
-def BuildFuelOk (tbl : Table) (r : Req) (base : List Name) : Prop := (buildTree tbl r base).oof = false
-
-instance (tbl : Table) (r : Req) (base : List Name) : Decidable (BuildFuelOk tbl r base) := by
-  unfold BuildFuelOk; infer_instance
-
 /-- `flat` / `_get_leafs` terminate on **every** node table — cyclic dependency graphs included — and emit
     each key of the table exactly once (a permutation of the keys).  (Each recursive call is preceded by a
     `pop` of the node it descends into, so a cycle cannot be followed twice.) -/
@@ -36,23 +29,6 @@ theorem cyclic_example :
 /-- `clean_tasks`' de-duplication never removes anything: what `flat` emits is already duplicate-free -/
 theorem dedup_redundant (ns : Nodes) (h : (keys ns).Nodup) : dedup [] (flat ns).out = (flat ns).out :=
   dedup_of_nodup _ _ ((flat_spec ns).2.nodup_iff.2 h) (fun _ _ hm => by simp at hm)
-
-private theorem plan_order {tbl : Table} {r : Req} {base : List Name} {p : Plan}
-    (hb : cleanList tbl r = .ok base) (hp : plan tbl r = .ok p) :
-    p.order = dedup [] (flat (buildTree tbl r base).nodes).out := by
-  simp only [plan, hb] at hp
-  cases hp
-  rfl
-
-private theorem tree_nodup {tbl : Table} {r : Req} {base : List Name} (hf : BuildFuelOk tbl r base) :
-    (keys (buildTree tbl r base).nodes).Nodup := by
-  unfold BuildFuelOk at hf
-  unfold buildTree at hf ⊢
-  by_cases hd : withDeps r = true
-  · simp only [hd, if_true] at hf ⊢
-    exact (buildAll_spec _ _ _ hf).1
-  · simp only [hd] at hf ⊢
-    exact (buildNoDeps_spec _ _).1
 
 /-- **flat_perm** — the tasks handed to `Task.clean` are duplicate-free and are exactly the declarative clean
     set: the named / default / all tasks; with dependencies (`--clean-dep`, `--clean-all`, or no task named)
